@@ -91,6 +91,12 @@ func (r *RingBuffer) Pull() (any, bool) {
 	for {
 		r.mutex.Lock()
 
+		if r.closed {
+			r.verifEvent("pull_closed", nil)
+			r.mutex.Unlock()
+			return nil, false
+		}
+
 		data := r.buffer[r.readIndex]
 
 		if data != nil {
@@ -99,12 +105,6 @@ func (r *RingBuffer) Pull() (any, bool) {
 			r.verifEvent("pull_got", data)
 			r.mutex.Unlock()
 			return data, true
-		}
-
-		if r.closed {
-			r.verifEvent("pull_closed", nil)
-			r.mutex.Unlock()
-			return nil, false
 		}
 
 		r.verifEvent("pull_wait", nil)
